@@ -11,6 +11,14 @@ TB = ("Trusted: Lean 4.33 kernel; axioms ⊆ {propext, Classical.choice, Quot.so
       "(constants/tables regenerated from /repo) and the differential correspondence stream; ")
 
 NOTES = {
+    "C11": {
+        "text": "Kernel-checked for every seed list (any count, literals of any length, all u8 parameters): packing succeeds iff no seed is uninitialised and the documented sizes total <= 32, "
+                "never panics, yields exactly the seeds back to back followed by zeros, and unpacking that returns the identical list; for every 32-byte array unpacking is total and a success "
+                "re-packs to the consumed prefix + zeros; the same for key-data configs and every byte prefix. The model writes through panicking slice primitives and uses the code's saturating one-byte size.",
+        "design_ref": "§5 C11",
+        "note": TB + "u8 fields are UInt8, Vec<u8> literals are unbounded lists.",
+        "technique": "Lean 4 theorem (all seed lists / all 32-byte arrays, kernel-checked) + differential correspondence incl. exact error codes as fidelity notes",
+    },
     "C18": {
         "text": "Kernel-checked: a SHA-256 digest has 32 bytes, so both the run-time path (hashv, 8-byte prefix, copy_from_slice) and the compile-time path (digest prefix as a byte-string "
                 "literal) succeed and equal the first 8 bytes of the digest of the input's bytes, for every input; the literal model shows `escape s` denotes exactly s for every Unicode string "
